@@ -28,27 +28,41 @@ from ..gen import gen_periodic
 LEVEL = 'proof'
 LEVEL_TEXT = ('The clauses of the property are universally quantified Lean theorems about the executable model of '
               '_compiled_valence_rules / calc_implicit / check_implicit / check_valence / the molecule totals (all bond lists, '
-              'all molecules, all 118 regenerated element tables); the model is tied to today\'s source by regenerating the '
-              'tables on every run and by an exhaustive model-vs-code comparison over the whole finite domain the property '
-              'names. Proof is the right level because the functions are pure table look-ups with a first-match rule.')
-LEVEL_NOTE = ('Lean kernel; gen_periodic translator; the hand transcription Model/Valence.lean is validated (not proved) against the '
-              'Python text by the exhaustive correspondence; Spec/OrganicValence.lean is hand-written from the OpenSMILES standard; '
-              'RDKit only inside the failing-input search.')
-TECHNIQUE = 'Lean 4 theorems (induction + decide +kernel over regenerated tables) + exhaustive model-vs-code correspondence'
+              'all molecules, all 118 regenerated element tables) and of the operations that write hydrogen counts: fix_structure over a '
+              'change set, implicify_hydrogens, explicify_hydrogens (new numbers max+1.., no atom or neighbour dict overwritten on any '
+              'numbering) and the loop body of Standardize.__standardize (for any rule data and any yielded mappings the recount set covers '
+              'every rewritten atom, so "all counts are the rules\' counts" is preserved by a rule and by the whole rule part of '
+              'standardize(); no KeyError on a well-formed molecule). The model is tied to today\'s source by regenerating the tables on '
+              'every run, by an exhaustive model-vs-code comparison over the whole finite domain the property names, and by replaying '
+              'every recorded rule application of standardize(). Proof is the right level because the functions are pure table look-ups '
+              'with a first-match rule and dictionary rewrites.')
+LEVEL_NOTE = ('Lean kernel; gen_periodic translator; the hand transcriptions Model/Valence.lean and Model/C04Standardize.lean are validated '
+              '(not proved) against the Python text by the exhaustive / recorded-call correspondence; the substructure matcher is not '
+              'modelled (its yielded mappings are recorded); Spec/OrganicValence.lean is hand-written from the OpenSMILES standard; '
+              'the molecule as left by any other public operation (cutting, transactions, readers, salts, generators, pack round trips) is '
+              'judged relationally with the model\'s calc_implicit / check_implicit; RDKit only inside the failing-input search.')
+TECHNIQUE = ('Lean 4 theorems (induction + decide +kernel over regenerated tables) + exhaustive model-vs-code correspondence + recorded-call '
+             'replay of standardize rule applications + relational judgement of operation histories')
 RULE = ('exhaustive grid: element in {B,C,N,O,F,P,S,Cl,Br,I} x charge -2..2 x radical x every multiset of <= 4 bonds of orders 1-3 to '
         '{H,C,N,O,F,S,Cl,P} (quick tier: the monovalent neighbours H, F, Cl single-bonded only; thorough: all 24 bond kinds), '
         'each evaluated for calc_implicit and check_implicit(0..4); '
         'a context is non-trivial when it has at least one bond; distinct by (element, charge, radical, bond multiset). Plus every key of '
         'every compiled table of all 118 elements (distinct by (element, key)), seeded random contexts with aromatic/special bonds and any '
         'element, one context family per compiled rule of every element (exact environment, one neighbour more/less/exchanged), whole molecules '
-        'atom by atom (distinct by canonical wire line; non-trivial when the molecule has a bond), and implicify/explicify_hydrogens on molecules '
-        'whose hydrogens were made partly explicit through the public API (non-trivial when hydrogens are removed/added).')
+        'atom by atom (distinct by canonical wire line; non-trivial when the molecule has a bond), implicify/explicify_hydrogens on molecules '
+        'whose hydrogens were made partly explicit through the public API, also under shifted / gapped / permuted numberings (non-trivial when '
+        'hydrogens are removed/added), operation histories (source molecule + list of public operations incl. options; non-trivial when an atom '
+        'context changes), one molecule per standardize rule drawn from the rule\'s own pattern, and every rule application of standardize() '
+        '(distinct by rule, molecule before, mappings; non-trivial when the rule rewrites something).')
 TRUSTED = ['gen_periodic translator (evaluates the property bodies of the Element subclasses)',
-           'Model/Valence.lean is a hand transcription of the Python functions, validated by the correspondence streams',
+           'Model/Valence.lean and Model/C04Standardize.lean are hand transcriptions of the Python functions, validated by the correspondence streams',
+           'the mappings given to the model of the standardize loop body are those the real matcher yielded (recorded through a wrapper of QueryContainer.get_mapping)',
+           'C14\'s pattern instantiation (harness/props/c14.py: instantiate, build) is reused as a generator of rule instances',
            'Spec/OrganicValence.lean (normal valences B3 C4 N3,5 O2 P3,5 S2,4,6 halogens 1, OpenSMILES)']
-ASSUMPTIONS = ['molecules are well formed (adjacency closed and symmetric) as the Graph API guarantees',
+ASSUMPTIONS = ['molecules are well formed (adjacency closed and symmetric) as the Graph API guarantees; every history result is checked for bonds known to one atom only',
                'tabulated float literals have at most 6 decimals (masses handled as exact 10^-12 units)',
-               'explicit_dict defaultdict insertion side effect never fires (proved: compiled_set_eq_dict_keys)']
+               'explicit_dict defaultdict insertion side effect never fires (proved: compiled_set_eq_dict_keys)',
+               'recorded gap: split_metal_salts() on a coordinate bond to a group I/II metal (known finding) is outside the judged domain']
 HAS_DRIVER = True
 FINDINGS_MODULE = None
 SEARCH_ALWAYS_IN_THOROUGH = True
@@ -1174,7 +1188,7 @@ def history_cases(ctx):
     ctx.dist('history/rule-instances', len(insts))
     # generators of new molecules (Kekule forms, tautomers, charged forms) and the salt operations on salts
     for name, m in pool:
-        if len(m) >= 2 and rng.random() < (0.25 if q else 0.3):
+        if len(m) >= 2 and rng.random() < (0.25 if q else 0.15):
             meth, kw = rng.choice(ENUMERATORS)
             cases.append((name, m, [['enumerate', meth, kw]]))
         if name in SALTS or name.split('/')[0] in SALTS:
